@@ -213,7 +213,7 @@ package ch
 //@ -- the caller's pre-filled input is the first block: the callback is asked for an initial block
 //@ -- only when there are no rows yet (otherwise it would overwrite rows that were never sent)
 //@ callsite value:f#1
-//@   assert rows == 0 [C02,C09] {initial-fetch-only-when-no-rows-were-provided}
+//@   assert q.Input[0].Data.nrows == 0 [C02,C09] {initial-fetch-only-when-no-rows-were-provided}
 //@ callsite value:f#2
 //@   assert len(c.writer.vec) == 0 && c.writer.bufOffset == 0 && len(c.writer.buf.Buf) == 0 {block-flushed-before-the-callback-runs-again}
 //@ -- no block is staged once the query's context is dead (after a server exception the client
